@@ -23,6 +23,9 @@ TRUSTED = ["hashlib (sha256) — sha256 is a universally quantified function in 
            "harness-side independent reference (affine secp256k1 arithmetic on ints, BIP341 taproot_tweak / "
            "merkle root) used by the PROPS predicates",
            "modelled, not verified: Script.parse / raw_serialize are the shared Model/Script.v (owner C04)"]
+# 256-bit curve arithmetic is never evaluated inside Coq (DESIGN §3): only the hash/codec functions are self-checked
+VM_SKIP = ("control_block", "tree_external_pubkey", "cb_parse", "cb_external_pubkey", "tweaked_key",
+           "priv_tweaked_key", "pubkey", "witness_control_block", "commit_check")
 ASSUMPTIONS = ["leaf version 0x50 is excluded from honest spends (BIP341 forbids it: the control block would be "
                "taken for an annex); it stays in the codec and recomputation cases",
                "(e + t) mod n = 0 and output key at infinity are side conditions of the theorems (no input exhibits them)"]
